@@ -175,6 +175,7 @@ func (t *Tables) Scan(start int, text string) (size, action int) {
 	state := t.StateMap[start]
 	actionStart := t.ActionStart()
 	var index int
+	var hasBackup bool
 	for index < len(text) {
 		var r rune
 		start := index
@@ -196,17 +197,36 @@ func (t *Tables) Scan(start int, text string) (size, action int) {
 				// Checkpoint.
 				action, state = bt.Action, bt.NextState
 				size = start
+				hasBackup = true
 				continue
 			}
-			if actionStart == state && size > 0 {
+			if actionStart == state && hasBackup {
 				// Backtrack.
 				return
 			}
 			return start, actionStart - state
 		}
 	}
-	state = t.Dfa[state*t.NumSymbols] // end-of-input transition
-	if actionStart == state && size > 0 {
+
+	// End of input. Rules can consume it via {eoi} (any number of times), so we keep feeding the
+	// end-of-input symbol until some action is triggered, as generated lexers do.
+	numStates := len(t.Dfa) / t.NumSymbols
+	for steps := 0; state >= 0; steps++ {
+		if steps > numStates {
+			// The end-of-input symbol is consumed in a loop.
+			state = actionStart
+			break
+		}
+		state = t.Dfa[state*t.NumSymbols]
+		if state < 0 && state > actionStart {
+			bt := t.Backtrack[-1-state]
+			// Checkpoint.
+			action, state = bt.Action, bt.NextState
+			size = len(text)
+			hasBackup = true
+		}
+	}
+	if actionStart == state && hasBackup {
 		// Backtrack.
 		return
 	}
